@@ -1,12 +1,114 @@
 import Driver.Util
+import SelenModel.Model.Sudoku
 /-
-(stub — to be filled in) ops with the prefix of this suite: model side.
+`sd.*` ops: model side of the specialised Sudoku solver (`src/solvers/sudoku.rs`).
+Every op carries its own grid (81 integers, row-major), so there is no per-case state.
+
+  sd.cand   <81>              candidate masks after `SudokuSolver::new`
+  sd.tech   <k> <81>          `apply_advanced_techniques` called k times: flag + events per call,
+                              candidate masks afterwards
+  sd.solve  <81>              all events recorded during `solve()` (posted singles, kinds 0-3, and
+                              naked-pair removals, kinds 4-6) in program order
+  sd.verify <81>              `SudokuSolver::verify_solution`
+  sd.result <81> <st> none|<81>  the answer of `solve()`, given what the general solver answered
+                              inside it (st: 0 Ok, 1 NoSolution, 2 Timeout, 3 MemoryLimit,
+                              4 ConflictingConstraints, 5 other error): is it a member of / consistent with the solutions of
+                              (27 alldiff ∧ domains ∧ posted singles)?
 -/
 namespace Driver
+open Selen Selen.Sudoku
 
 structure SudokuSt where
   dummy : Unit := ()
 
-def sudokuStep (st : SudokuSt) (_ws : List String) : SudokuSt × String := (st, "bad-op")
+def sdMask (l : List Int) : Nat := l.foldl (fun m d => m + 2 ^ (d - 1).toNat) 0
+
+def sdShowCands (cs : Cands) : String :=
+  showNats ((List.range 81).map fun i => sdMask (cs (i / 9) (i % 9)))
+
+def sdShowEv (e : Ev) : String := s!"{e.kind}:{e.row}:{e.col}:{e.digit}"
+
+def sdShowEvs (l : List Ev) : String := "[" ++ ",".intercalate (l.map sdShowEv) ++ "]"
+
+def sdGrid (ws : List String) : Option (Array Int) :=
+  match parseInts ws with
+  | some l => if l.length = 81 then some l.toArray else none
+  | none => none
+
+def sdTech (g : Grid) : Nat → Table → String → String
+  | 0, t, acc => acc ++ "cands=" ++ sdShowCands t.get
+  | k + 1, t, acc =>
+    let r := applyAdvanced g t.get
+    sdTech g k (table r.2.2) (acc ++ s!"p={showBool r.1} ev={sdShowEvs r.2.1} | ")
+
+def sdSearchFuel : Nat := 2000000
+
+def sudokuStep (st : SudokuSt) (ws : List String) : SudokuSt × String :=
+  match ws with
+  | "sd.cand" :: rest =>
+    match sdGrid rest with
+    | some a =>
+      match Sudoku.new (Grid.ofArray a) with
+      | some t => (st, "cands=" ++ sdShowCands t.get)
+      | none => (st, "panic")
+    | none => (st, "bad-op")
+  | "sd.tech" :: k :: rest =>
+    match k.toNat?, sdGrid rest with
+    | some k, some a =>
+      match Sudoku.new (Grid.ofArray a) with
+      | some t => (st, sdTech (Grid.ofArray a) k t "")
+      | none => (st, "panic")
+    | _, _ => (st, "bad-op")
+  | "sd.solve" :: rest =>
+    match sdGrid rest with
+    | some a =>
+      match solveEvents (Grid.ofArray a) with
+      | some evs => (st, s!"n={evs.length} posted={(posted evs).length} ev={sdShowEvs evs}")
+      | none => (st, "panic")
+    | none => (st, "bad-op")
+  | "sd.verify" :: rest =>
+    match sdGrid rest with
+    | some a => (st, "v=" ++ showBool (verifySolution (Grid.ofArray a)))
+    | none => (st, "bad-op")
+  | "sd.result" :: rest =>
+    match sdGrid (rest.take 81) with
+    | some a =>
+      let g := Grid.ofArray a
+      match solvePosted g with
+      | none => (st, "panic")
+      | some post =>
+        match rest.drop 81 with
+        | [status, "none"] =>
+          -- the general solver answered `Err`: which one decides what the model expects
+          let ans : Option GenAnswer :=
+            if status = "1" then some .noSolution else if status = "2" then some .timeout
+            else if status = "3" then some .memoryLimit else if status = "4" then some .conflicting
+            else if status = "5" then some .otherErr else none
+          let unsatClaim := status = "1" || status = "4"
+          match ans with
+          | none => (st, "bad-op")
+          | some x =>
+            match solveResult x with
+            | some _ => (st, "bad-op")
+            | none =>
+              if unsatClaim then
+                -- "unsatisfiable" must be true of (domains ∧ 27 alldiff ∧ posted) = of the clues
+                match search a sdSearchFuel with
+                | .nosol => (st, s!"res=none why={status}")
+                | .found _ => (st, "res=some")
+                | .fuel => (st, "res=?fuel")
+              else (st, s!"res=none why={status}")
+        | "0" :: more =>
+          match sdGrid more with
+          | some s =>
+            let sg := Grid.ofArray s
+            match solveResult (.ok sg) with
+            | some r =>
+              (st, s!"res=some member={showBool (solPosted g post r)} valid={showBool (verifySolution r && agrees g r)}")
+            | none => (st, "bad-op")
+          | none => (st, "bad-op")
+        | _ => (st, "bad-op")
+    | none => (st, "bad-op")
+  | _ => (st, "bad-op")
 
 end Driver
